@@ -32,4 +32,6 @@ PROPS = {
     'C05': {'level': 'proof', 'claim': 'uc', 'level_note': 'uc', 'trusted': NUMPY_TRUST, 'not_applicable': 'under construction'},
     'C13': {'level': 'proof', 'claim': 'uc', 'level_note': 'uc', 'trusted': NUMPY_TRUST, 'not_applicable': 'under construction'},
     'C04': {'level': 'proof', 'claim': 'uc', 'level_note': 'uc', 'trusted': NUMPY_TRUST, 'not_applicable': 'under construction'},
+    'C15': {'level': 'proof', 'claim': 'uc', 'level_note': 'uc', 'trusted': [], 'not_applicable': 'under construction'},
+    'C14': {'level': 'proof', 'claim': 'uc', 'level_note': 'uc', 'trusted': [], 'not_applicable': 'under construction'},
 }
